@@ -344,6 +344,11 @@ func c12Run(r *core.Run) {
 		r.Failf("C12.dump-aliased", "after-next-dump", "the bytes Dump returned (%d) changed when another patch set was serialised afterwards: first difference at %d", len(dump), firstDiff(dump, snapshot))
 		dump = snapshot
 	}
+	// serialising a set does not change what it says: the same set serialised
+	// again (a retry against the next server, say) gives the same bytes
+	if again := ps.Dump(); !bytes.Equal(again, dump) {
+		r.Failf("C12.dump-changes-the-set", shape, "Dump() of the same patch set a second time differs from the first (%d vs %d bytes, first difference at %d)", len(again), len(dump), firstDiff(again, dump))
+	}
 	loaded, err := binpatch.Load(dump)
 	if err != nil {
 		r.Failf("C12.roundtrip.load-failed", shape, "Load(Dump(p)) failed: %v", err)
